@@ -438,6 +438,13 @@ Qed.
 
 (* ------------------------------------------------------------------ C10: exactly one reply, of the
    right kind, within ATT_MTU *)
+Lemma h_mtu_cases st m :
+  (b_enh (s_b st) = true /\ h_mtu st m = (st, [err_rsp 2 0 E_REQ_NOT_SUPPORTED])) \/
+  (b_enh (s_b st) = false /\
+   h_mtu st m = (if DEFAULT_MTU <=? m then set_mtu st (Z.min (s_max_mtu st) m) else st,
+                 [[OP_MTU_RSP] ++ le16 (s_max_mtu st)])).
+Proof. unfold h_mtu, negotiated_mtu. destruct (b_enh (s_b st)); [left|right]; split; reflexivity. Qed.
+
 Ltac one_reply_bad := eexists _, _; split; [reflexivity|split; [apply reply_err|intros; rewrite len_err_rsp; lia]].
 
 Lemma rx_request_one st opc ps :
@@ -450,7 +457,9 @@ Proof.
   - (* 2: Exchange MTU *)
     destruct (parse_pdu 2 ps) as [|r] eqn:E; [one_reply_bad|].
     apply parse_2 in E. destruct E as (m & ->). cbn [assoc m_handlers Z.eqb Pos.eqb handle].
-    unfold h_mtu. eexists _, _; split; [reflexivity|split; [apply (reply_rsp 2)|cbn; lia]].
+    destruct (h_mtu_cases st m) as [(_ & ->)|(_ & ->)].
+    + eexists _, _; split; [reflexivity|split; [apply reply_err|intros; rewrite len_err_rsp; lia]].
+    + eexists _, _; split; [reflexivity|split; [apply (reply_rsp 2)|cbn; lia]].
   - destruct (parse_pdu 4 ps) as [|r] eqn:E; [one_reply_bad|].
     apply parse_4 in E. destruct E as (s & e & ->). cbn [assoc m_handlers Z.eqb Pos.eqb handle].
     eexists _, _; split; [reflexivity|split; [apply h_find_info_reply|apply h_find_info_len]].
@@ -511,7 +520,8 @@ Lemma handle_len st op r st' out :
   handle st op r = Some (st', out) -> all_le (mtu_of st) out.
 Proof.
   intros Hm Hw H. unfold handle in H. destruct r.
-  - inversion H; subst. apply all_le_one. cbn. lia.
+  - destruct (h_mtu_cases st m) as [(_ & Hc)|(_ & Hc)]; rewrite Hc in H; inversion H; subst;
+      apply all_le_one; [rewrite len_err_rsp|cbn]; lia.
   - inversion H; subst. apply all_le_one. apply h_find_info_len; exact Hm.
   - inversion H; subst. apply all_le_one. apply h_fbtv_len; exact Hm.
   - inversion H; subst. apply all_le_one. apply h_rbt_len; exact Hm.
@@ -721,7 +731,8 @@ Proof.
   - (* Rx *)
     pose proof (rx_len st opc ps st' out Hm Hw Hs) as Hl. split; [|exact Hl].
     apply rx_cases in Hs. destruct Hs as [(m & Hs)|[(_ & Hs)|Hs]].
-    + unfold h_mtu in Hs. inversion Hs; subst. clear Hs.
+    + destruct (h_mtu_cases st m) as [(_ & Hc)|(_ & Hc)]; rewrite Hc in Hs; inversion Hs; subst; clear Hs;
+        [exact Hi|].
       destruct (DEFAULT_MTU <=? m) eqn:E; [|exact Hi].
       apply Z.leb_le in E. unfold DEFAULT_MTU in E.
       apply inv_intro; cbn [mtu_of set_mtu s_b b_mtu s_max_mtu s_waiting] in *; try lia.
@@ -816,7 +827,8 @@ Proof.
     + replace (opc =? OP_CONFIRM) with false
         by (symmetry; apply Z.eqb_neq; exact Hn).
       apply rx_cases in Hs. destruct Hs as [(m & Hs)|[(He & _)|Hs]]; [|contradiction|].
-      * unfold h_mtu in Hs. inversion Hs; subst. clear Hs. cbn.
+      * destruct (h_mtu_cases st m) as [(_ & Hc)|(_ & Hc)]; rewrite Hc in Hs; inversion Hs; subst; clear Hs; cbn;
+          [split; [exact Hi|reflexivity]|].
         destruct (DEFAULT_MTU <=? m); cbn; (split; [exact Hi|reflexivity]).
       * destruct Hs as (_ & _ & Hw & Hp & _ & Ho). destruct Hi as (H1 & H2).
         split; [split; [rewrite Hp, Hw; exact H1|rewrite Hw; exact H2]|].
@@ -843,7 +855,8 @@ Lemma step_mtu_ge st o st' out :
 Proof.
   intros Hm Hx Hs. destruct o as [opc ps| |h v f|h v f]; cbn [step] in Hs.
   - apply rx_cases in Hs. destruct Hs as [(m & Hs)|[(_ & Hs)|Hs]].
-    + unfold h_mtu in Hs. inversion Hs; subst. destruct (DEFAULT_MTU <=? m) eqn:E; [|auto].
+    + destruct (h_mtu_cases st m) as [(_ & Hc)|(_ & Hc)]; rewrite Hc in Hs; inversion Hs; subst; [auto|].
+      destruct (DEFAULT_MTU <=? m) eqn:E; [|auto].
       apply Z.leb_le in E. unfold DEFAULT_MTU in E. cbn. split; [lia|reflexivity].
     + unfold h_confirm in Hs. destruct (s_pending st); [destruct (s_waiting st)|];
         inversion Hs; subst; cbn; auto.
@@ -1016,7 +1029,9 @@ Proof.
   unfold handle. rewrite <- Hv, <- Hm.
   destruct r; cbn [step_rel]; try (split; [reflexivity|split; assumption]); try exact I.
   - (* MTU *)
-    unfold h_mtu. rewrite <- Hx. split; [reflexivity|].
+    unfold h_mtu, negotiated_mtu. rewrite <- Hx, <- Hb.
+    destruct (b_enh (s_b st1)); [split; [reflexivity|split; assumption]|].
+    split; [reflexivity|].
     destruct (DEFAULT_MTU <=? m); [|split; assumption].
     unfold set_mtu. rewrite <- Hb. split.
     + unfold st_sim. cbn [s_db s_b s_max_mtu s_subs s_pending s_waiting].
@@ -1218,7 +1233,7 @@ Proof.
     unfold parse_pdu in E. destruct (assoc opc m_shapes) as [sh|].
     + destruct (parse_fields sh ps) as [fv|]; [|discriminate]. inversion E as [E1].
       unfold handle in H. destruct r; try (inversion H; auto; fail).
-      * unfold h_mtu in H. inversion H. destruct (DEFAULT_MTU <=? m); auto.
+      * unfold h_mtu in H. destruct (b_enh (s_b st)); inversion H; [auto|]. destruct (DEFAULT_MTU <=? m); auto.
       * apply to_req_write in E1. contradiction.
       * apply to_req_write_cmd in E1. contradiction.
       * inversion H as [H1]. unfold h_confirm in H1.
@@ -1447,7 +1462,8 @@ Lemma step_sec st o st' out : step st o = Some (st', out) -> sec_eq (s_b st') (s
 Proof.
   intros Hs. destruct o as [opc ps| |h v f|h v f]; cbn [step] in Hs.
   - apply rx_cases in Hs. destruct Hs as [(m & Hs)|[(_ & Hs)|Hs]].
-    + unfold h_mtu in Hs. inversion Hs; subst. destruct (DEFAULT_MTU <=? m); split; reflexivity.
+    + unfold h_mtu in Hs. destruct (b_enh (s_b st)); inversion Hs; subst; [split; reflexivity|].
+      destruct (DEFAULT_MTU <=? m); split; reflexivity.
     + unfold h_confirm in Hs. destruct (s_pending st); [destruct (s_waiting st)|];
         inversion Hs; subst; split; reflexivity.
     + destruct Hs as (_ & _ & _ & _ & Hb & _). rewrite Hb. split; reflexivity.
@@ -1488,7 +1504,9 @@ Proof.
   intros Hw. pose proof Hw as (Hdb & Hb & Hx & Hsub). unfold handle.
   destruct r; try (apply weak_out; [exact Hw|reflexivity]); try exact I.
   - (* MTU *)
-    unfold h_mtu. rewrite <- Hx. destruct (DEFAULT_MTU <=? m); apply weak_out; try reflexivity; [|exact Hw].
+    unfold h_mtu, negotiated_mtu. rewrite <- Hx, <- Hb.
+    destruct (b_enh (s_b st1)); [apply weak_out; [exact Hw|reflexivity]|].
+    destruct (DEFAULT_MTU <=? m); apply weak_out; try reflexivity; [|exact Hw].
     unfold weak_rel, set_mtu. cbn [s_db s_b s_max_mtu s_subs]. rewrite <- Hb. repeat split; assumption.
   - (* write request *)
     rewrite <- Hb, <- Hsub.
@@ -1866,7 +1884,7 @@ Proof.
           destruct (burst_now st1 conf l) as [[[[st2 c2] out2] d2]|] eqn:E; [|discriminate]. inversion H; subst.
           destruct (IH _ _ _ _ _ _ E) as (H1 & H2). rewrite H1, H2.
           apply rx_cases in Erx. destruct Erx as [(m & Hs)|[(He & _)|Hs]]; [|contradiction|].
-          * unfold h_mtu in Hs. inversion Hs. destruct (DEFAULT_MTU <=? m); auto.
+          * unfold h_mtu in Hs. destruct (b_enh (s_b st)); inversion Hs; [auto|]. destruct (DEFAULT_MTU <=? m); auto.
           * destruct Hs as (_ & _ & Hw & Hp & _). auto. }
     assert (Hlater : forall d st st' out, Forall (fun x => deferred (fst x) (snd x) = true) d ->
                      burst_later st d = Some (st', out) ->
@@ -1879,7 +1897,7 @@ Proof.
         destruct (IH _ _ _ Hd2 E) as (H1 & H2). rewrite H1, H2.
         pose proof (deferred_not_confirm _ _ Hd1) as H30.
         apply rx_cases in Erx. destruct Erx as [(m & Hs)|[(He & _)|Hs]]; [|contradiction|].
-        + unfold h_mtu in Hs. inversion Hs. destruct (DEFAULT_MTU <=? m); auto.
+        + unfold h_mtu in Hs. destruct (b_enh (s_b st)); inversion Hs; [auto|]. destruct (DEFAULT_MTU <=? m); auto.
         + destruct Hs as (_ & _ & Hw & Hp & _). auto. }
     destruct (Hnow _ _ _ _ _ _ _ En) as (A1 & A2). destruct (Hlater _ _ _ _ Hd El) as (B1 & B2).
     split; congruence. }
@@ -1908,4 +1926,38 @@ Proof.
       destruct (IH st1 conf) as ([[[st2 c2] out2] d2] & ->). eauto. }
   unfold burst. destruct (Hn l st false) as ([[[st1 c] out1] d] & ->).
   destruct (Hl d st1) as ([st2 out2] & ->). destruct c; [destruct (h_confirm st2)|]; eauto.
+Qed.
+
+(* ------------------------------------------------------------------ C10: the negotiated ATT_MTU *)
+Lemma reply_le_negotiated st opc ps local peer :
+  In opc spec_requests -> 23 <= local -> 23 <= peer -> mtu_of st = negotiated_mtu local peer ->
+  exists st' p, rx st opc ps = Some (st', [p]) /\ len p <= local /\ len p <= peer.
+Proof.
+  intros Hin Hl Hp Hm. destruct (rx_request_one st opc ps Hin) as (st' & p & Hrx & _ & Hle).
+  exists st', p. split; [exact Hrx|]. unfold negotiated_mtu in Hm.
+  assert (H : len p <= mtu_of st) by (apply Hle; rewrite Hm; lia). rewrite Hm in H. lia.
+Qed.
+
+(* no PDU changes the ATT_MTU of an enhanced bearer *)
+Lemma enhanced_mtu_fixed st opc ps st' out :
+  b_enh (s_b st) = true -> rx st opc ps = Some (st', out) -> mtu_of st' = mtu_of st.
+Proof.
+  intros He H. apply rx_cases in H. destruct H as [(m & Hs)|[(_ & Hs)|Hs]].
+  - destruct (h_mtu_cases st m) as [(_ & Hc)|(Hf & _)]; [|congruence].
+    rewrite Hc in Hs. inversion Hs; reflexivity.
+  - unfold h_confirm in Hs. destruct (s_pending st); [destruct (s_waiting st)|]; inversion Hs; reflexivity.
+  - destruct Hs as (H1 & _). exact H1.
+Qed.
+
+(* on the fixed bearer a well-formed Exchange MTU Request with client_rx_mtu >= 23 is answered
+   with server_rx_mtu = max_mtu and the ATT_MTU becomes the minimum of the two values on the wire *)
+Lemma fixed_mtu_exchange st x y :
+  b_enh (s_b st) = false -> 23 <= x + 256 * y ->
+  rx st 2 [x; y] = Some (set_mtu st (negotiated_mtu (s_max_mtu st) (x + 256 * y)),
+                         [[OP_MTU_RSP] ++ le16 (s_max_mtu st)]).
+Proof.
+  intros He Hc. unfold rx, parse_pdu.
+  cbn [assoc m_shapes m_handlers Z.eqb Pos.eqb parse_fields option_map to_req handle].
+  unfold h_mtu. rewrite He. replace (DEFAULT_MTU <=? x + 256 * y) with true; [reflexivity|].
+  symmetry. apply Z.leb_le. exact Hc.
 Qed.
